@@ -654,6 +654,9 @@ C02_HeadersExact ==
 C02_HeadersByFirstMsg ==
   /\ \A r \in RPCs : ~rp[r].hdrLate
   /\ q.at => \A b \in BlockedOps : (b[3] = "header" /\ b[2] \in RPCs /\ rp[b[2]].sid \in Sids) => ~ws[rp[b[2]].sid].hdrDeliv
+\* every metadata value the scenarios use is legal gRPC metadata (binary values
+\* under "-bin" keys included): none may be refused as unencodable
+C02_EncodableMetadata == ~tun.marshalFail
 C02_RequestMD == \A r \in RPCs : (rp[r].inv > 0 /\ rp[r].cstart /\ RealCli) => MDEq(rp[r].invMD, rp[r].mdSent)
 
 \* ---- C07 -------------------------------------------------------------------
@@ -768,7 +771,7 @@ Formulas == [
   C02_ResultOnce |-> C02_ResultOnce, C02_CloseCarriesHandlerStatus |-> C02_CloseCarriesHandlerStatus,
   C02_StatusExact |-> C02_StatusExact, C02_TrailersAtTerminal |-> C02_TrailersAtTerminal,
   C02_HeadersExact |-> C02_HeadersExact, C02_HeadersByFirstMsg |-> C02_HeadersByFirstMsg,
-  C02_RequestMD |-> C02_RequestMD,
+  C02_RequestMD |-> C02_RequestMD, C02_EncodableMetadata |-> C02_EncodableMetadata,
   C07_OneLegalOutcome |-> C07_OneLegalOutcome, C07_CallerEndsAlone |-> C07_CallerEndsAlone,
   C07_HandlerReleased |-> C07_HandlerReleased,
   C04_CallsEnd |-> C04_CallsEnd, C04_HandlersReleased |-> C04_HandlersReleased,
@@ -790,6 +793,7 @@ Violated == LET F == Formulas IN { n \in DOMAIN F : ~F[n] }
 \* known findings): formula-specific, "" by default
 Detail(n) ==
   CASE n = "C03_TunnelSurvives" -> IF tun.marshalFail THEN "unencodable-metadata" ELSE ""
+    [] n = "C02_EncodableMetadata" -> "non-utf8-binary-value"
     [] n = "C10_GracefulStopReturns" -> IF q.nsrv > 0 /\ q.stab = 0 THEN "idle-tunnel" ELSE ""
     [] OTHER -> ""
 
